@@ -16,11 +16,11 @@ def expr(e):
     if k == "int":
         return str(e["v"])
     if k == "float":
-        return e["v"]
+        return e["s"]
     if k == "str":
-        return '"%s"' % e["v"]
+        return '"%s"' % e["s"]
     if k == "bool":
-        return "True" if e["v"] else "False"
+        return "True" if e["b"] else "False"
     if k == "none":
         return "None"
     if k == "var":
@@ -31,6 +31,8 @@ def expr(e):
         return "not %s" % operand(e["e"])
     if k == "neg":
         return "-%s" % operand(e["e"])
+    if k == "lam":
+        return "\\%s => %s" % (", ".join(params(e["ps"])), expr(e["e"]))
     if k == "ife":
         return "if %s then %s else %s" % (operand(e["c"]), operand(e["t"]), operand(e["e"]))
     if k == "call":
@@ -52,7 +54,7 @@ def expr(e):
     if k == "qdef":
         return "%s ? %s" % (operand(e["l"]), operand(e["r"]))
     if k == "fstr":
-        return '"%s"' % "".join(p["v"] if p["k"] == "str" else "{%s}" % expr(p) for p in e["parts"])
+        return '"%s"' % "".join(p["s"] if p["k"] == "str" else "{%s}" % expr(p) for p in e["parts"])
     if k == "raw":
         return e["v"]
     raise ValueError("cannot render expression kind %r" % k)
@@ -134,6 +136,15 @@ class R:
     def stmt(self, s, ind, path):
         self.lines[path] = len(self.out) + 1
         k = s["k"]
+        if k in ("def", "deftup") and s["e"]["k"] == "ife" and s["e"].get("blk"):
+            # block form of the conditional expression:  def z := if c then NL INDENT t NL DEDENT else NL INDENT e
+            e = s["e"]
+            head = self.simple(dict(s, e={"k": "var", "n": "\0"}))
+            self.emit(ind, head.replace("\0", "if %s then" % expr(e["c"])))
+            self.emit(ind + 1, expr(e["t"]))
+            self.emit(ind, "else")
+            self.emit(ind + 1, expr(e["e"]))
+            return
         t = self.simple(s)
         if t is not None:
             self.emit(ind, t)
@@ -155,6 +166,12 @@ class R:
             else:
                 r = expr(it)
             self.emit(ind, "for %s in %s do" % (s["n"], r))
+            self.block(s["b"], ind + 1, path + ".b")
+        elif k == "with":
+            head = "with %s" % s["r"]
+            if s["a"]:
+                head += " as %s" % s["a"] + (": " + s["ty"] if s["ty"] else "")
+            self.emit(ind, head + " do")
             self.block(s["b"], ind + 1, path + ".b")
         elif k == "match":
             self.emit(ind, "match %s" % expr(s["e"]))
